@@ -24,8 +24,9 @@ def specs_for(rng, n):
     # offsets within an ulp of an integer (0 included): the argument (i - offset) / multiplier of the inverse log-like function is then a tiny
     # negative or positive number, or the float just below an integer, for the bin next to 1.0 (gamma = 2: for every bin)
     for kind in ("log", "lin", "cub"):
-        for g in (1.02, 2.0, 1.0202027004415701):
-            for off in (1e-20, -1e-20, 5.551115123125783e-17, 5e-324, nextafter(3.0, True), nextafter(3.0, False), nextafter(-2.0, True), nextafter(-2.0, False), 2.0 ** -53, -(2.0 ** -54)):
+        for g in (1.02, 2.0, 1.0202027004415701, 4.0):
+            for off in (1e-20, -1e-20, 5.551115123125783e-17, 5e-324, nextafter(3.0, True), nextafter(3.0, False), nextafter(-2.0, True), nextafter(-2.0, False), 2.0 ** -53, -(2.0 ** -54),
+                        nextafter(1.0, False), nextafter(1.0, True), nextafter(-1.0, True), nextafter(-1.0, False), 1 - 2.0 ** -52, nextafter(2.0, False), nextafter(0.5, False), 1 - 2.0 ** -51, 7.5e-17, 1.9e-16):
                 out.append("%s:g:%s:%s" % (kind, f2h(g), f2h(off)))
     # offsets near +-2^31: the int32 clamp of the constructors, not the float overflow, then bounds the indexable range on one side
     for kind in ("log", "lin", "cub"):
@@ -47,7 +48,7 @@ def run(tier, seed):
         rep.violation("build", {"what": "vrun does not build against /repo", "log": log[-3000:]}, found_input=False)
         core.proof_section(rep, pid); return rep.finish()
     core.proof_section(rep, pid, trusted_extra=["theorems are about the ideal (real-arithmetic) mappings; their float64 evaluation through Go's math.Log/Exp/Exp2/Log2/Pow/Cbrt is validated by this run's exact-rational oracle, not proved"])
-    specs = specs_for(rng, 270 if tier == "quick" else 730)
+    specs = specs_for(rng, 420 if tier == "quick" else 900)
     facts = sketchcheck.learn_specs(pid, specs)
     npts = 150 if tier == "quick" else 1500
     # phase A: indexes of the probe values
